@@ -170,6 +170,39 @@ theorem special_encodings (t : TS) (us : Int) (bs : List UInt8) :
 
 example : String.ofList (tsStr ⟨2009, 2, 13, 23, 31, 30, 123456, 0⟩) = "2009-02-13T23:31:30Z" := by decide
 example : String.ofList (tsStr ⟨2009, 2, 13, 23, 31, 30, 0, -330⟩) = "2009-02-13T23:31:30-05:30" := by decide
-example : String.ofList (durStr (-1999999)) = "-1s" ∧ String.ofList (durStr 90000000) = "90s" := by decide
+
+/-- "durations … encode as … seconds text": the number written is the duration **truncated toward zero to whole seconds** —
+exactly, for every duration shorter than 2^34 s (≈ 544 years), positive or negative, with any microsecond part. The code goes
+through the float `timedelta.total_seconds()`; the theorem is about the exact binary64 model of that quotient
+(`Cel.Time.totalSeconds`, round-to-nearest-even), and says the rounding never reaches the next whole second in this range
+(spacing of doubles below 2^34 is ≤ 2^-19 s < 2 µs, and a microsecond part is at least 1 µs away from the next second). -/
+theorem duration_seconds_truncate (us : Int) (h : us.natAbs < 2 ^ 34 * 1000000) :
+    durSeconds us = Int.tdiv us 1000000 ∧
+    durStr us = (toString (Int.tdiv us 1000000)).toList ++ ['s'] := by
+  have e : durSeconds us = Int.tdiv us 1000000 := totalSeconds_trunc_small us h
+  exact ⟨e, by unfold durStr; rw [e]⟩
+
+/-- the sign-symmetric reading of the same fact: `-d` prints the negated number, and a non-negative duration prints ⌊µs/10^6⌋
+(so −1.5 s is `-1s`, never `-2s`: truncation, not floor). -/
+theorem duration_seconds_sign (us : Int) (h : us.natAbs < 2 ^ 34 * 1000000) :
+    durSeconds (-us) = -durSeconds us ∧ (0 ≤ us → durSeconds us = us / 1000000) := by
+  have h' : (-us).natAbs < 2 ^ 34 * 1000000 := by rw [Int.natAbs_neg]; exact h
+  rw [(duration_seconds_truncate us h).1, (duration_seconds_truncate (-us) h').1]
+  exact ⟨Int.neg_tdiv _ _, fun hn => Int.tdiv_eq_ediv_of_nonneg hn⟩
+
+/-- whole seconds are written exactly over the full CEL duration range (and far beyond: |s| < 2^53) -/
+theorem duration_whole_seconds (s : Int) (h : s.natAbs < 2 ^ 53) : durSeconds (s * 1000000) = s := by
+  unfold durSeconds Cel.Time.totalSeconds
+  exact JsonM.rnd_exact_million s h
+
+/-- the bound 2^34 s of `duration_seconds_truncate` is sharp: one microsecond below 2^34 + 1 s the float quotient IS the next
+whole second (a documented limit of `int(total_seconds())`, modelled exactly and compared with the code on every run). -/
+theorem duration_seconds_sharp :
+    durSeconds (2 ^ 34 * 1000000 + 999999) = 2 ^ 34 + 1 ∧ Int.tdiv (2 ^ 34 * 1000000 + 999999) 1000000 = 2 ^ 34 := by
+  decide
+
+example : String.ofList (durStr (-1999999)) = "-1s" ∧ String.ofList (durStr 90000000) = "90s" ∧
+    String.ofList (durStr (-500000)) = "0s" ∧ String.ofList (durStr (-3600001000)) = "-3600s" := by decide
+example : ((-1500000 : Int)).natAbs < 2 ^ 34 * 1000000 := by decide
 
 end Cel.Props.C15
